@@ -58,6 +58,19 @@ Tags(r) ==
                              THEN {"returned-constraint-violated:graph-with-core:constraint-of-the-core-not-carried-by-the-planar-graph"}
                         ELSE {"returned-constraint-violated"}))
 NonTrivial(r) == ~r.thrown /\ \E e \in DOMAIN r.routes : Len(r.routes[e].pts) > 2
+\* ---- phase-level observations (not part of C14's statement; counted in the evidence, never a violation) ----------------
+\* r.plog: the logged state of each main pipeline phase: nodes <<cx, cy, w, h>>, constraints compiled per dimension
+\*  - every logged main phase from the hub configuration on leaves its own constraints satisfied by its own positions
+\*  - the phases that end with an overlap-preventing destress leave no two (padded) nodes overlapping
+NoOverlapPhases == {"OP_destress_core", "EOP_destress_core", "P_EOP_destress", "P_nbr_destress", "P_rotation", "P_translation"}
+PRect(nd) == <<nd[1] - nd[3] \div 2, nd[2] - nd[4] \div 2, nd[1] + nd[3] \div 2, nd[2] + nd[4] \div 2>>
+PConOK(ph, c, dim) == LET d == ph.nodes[c[2]][dim + 1] - ph.nodes[c[1]][dim + 1] - c[3] IN IF c[4] THEN Abs(d) <= 3 * TOL ELSE d >= -3 * TOL
+PhaseObs(r) == IF r.thrown THEN {} ELSE UNION {
+      LET ph == r.plog[p] IN
+      (IF (\E i \in DOMAIN ph.cx : ~PConOK(ph, ph.cx[i], 0)) \/ (\E i \in DOMAIN ph.cy : ~PConOK(ph, ph.cy[i], 1)) THEN {<<ph.name, "own-constraint-violated">>} ELSE {})
+      \cup (IF ph.name \in NoOverlapPhases /\ \E i \in DOMAIN ph.nodes, j \in DOMAIN ph.nodes : i < j /\ Overlap(PRect(ph.nodes[i]), PRect(ph.nodes[j]))
+            THEN {<<ph.name, "nodes-overlap">>} ELSE {})
+      : p \in DOMAIN r.plog }
 VARIABLES k, phase, bad
 vars == <<k, phase, bad>>
 Init == k \in 0..(NChunks - 1) /\ phase = "todo" /\ bad = {}
@@ -65,6 +78,7 @@ Idx(kk) == {i \in (kk * CH + 1)..((kk + 1) * CH) : i <= Len(Recs)}
 Eval == /\ phase = "todo" /\ phase' = "done" /\ UNCHANGED k
         /\ bad' = UNION { {<<i, t>> : t \in Tags(Recs[i])} : i \in Idx(k) }
         /\ PrintT(<<"STAT", "hola", k, Cardinality({i \in Idx(k) : NonTrivial(Recs[i])}), Cardinality({i \in Idx(k) : Recs[i].thrown})>>)
+        /\ PrintT(<<"OBS", k, UNION {{<<i, o[1], o[2]>> : o \in PhaseObs(Recs[i])} : i \in Idx(k)}, Cardinality({i \in Idx(k) : ~Recs[i].thrown /\ Recs[i].plog # <<>>})>>)
 Spec == Init /\ [][Eval]_vars
 CleanDrawing == bad = {}
 =============================================================================
